@@ -1400,7 +1400,8 @@ static void calculate_doxygen_javadoc_indent_alignment(const std::wstring &str,
 
             while (true)
             {
-               while (  !unc_isspace(str[idx])
+               while (  idx < str.size()
+                     && !unc_isspace(str[idx])
                      && str[idx] != ',')
                {
                   ++param_name_width;
@@ -1408,7 +1409,8 @@ static void calculate_doxygen_javadoc_indent_alignment(const std::wstring &str,
                }
                idx = eat_line_whitespace(str, idx);
 
-               if (str[idx] != ',')
+               if (  idx >= str.size()
+                  || str[idx] != ',')
                {
                   break;
                }
